@@ -80,6 +80,36 @@ ASSUMPTIONS = [
     "spelling is an analysis error; one comment token per physical line (so extend/+=/= list(..) agree)",
 ]
 
+EXPLANATION += (
+    "  R3.10 follows a `_process_comment` that only hands its parameters on to one module-level function "
+    "(directly, wrapped in tuple()/list(), by `yield from`, or through a memo) into that function.  "
+    "R3.21 (rules/c03_position_final.py) who-may-write + ordering for the error's position: the fields the "
+    "filter reads from the error (derived from Director.filter_error through the properties of errors.Error) "
+    "may only be changed - by a method of Error storing them, or a store through anything but `self` - on an "
+    "error that has not been filtered yet on any path: a local bound to a fresh Error (constructor, or a log "
+    "method all of whose returns are fresh) before it is handed to the filter point (`self._filter(<param>)`, "
+    "found by role) or to a log method that hands its parameter on; a parameter makes the function a mover "
+    "whose callers are judged in turn (package-wide for public names; the director's filter may be referenced "
+    "only as the argument of set_error_filter); the result of a log method that returns what it logged, an "
+    "element of the log or of a checkpoint record, a local after `_add(<local>)` are filtered objects: "
+    "violation.  Move sites are searched in every non-test module (text prefilter on the writer / field names).  "
+    "R3.22 (rules/c03_memo_keys.py) every memo in directors/parser.py and directors/directors.py - a "
+    "container that outlives the call (module level, class attribute, mutable default) which one function both "
+    "looks up and fills - is keyed by every parameter the stored value is computed from (once-bound locals "
+    "inlined; an argument a module-level callee never reads does not count); functools caches on generator "
+    "functions hand out an exhausted iterator.  Blind spots of R3.21: setattr/__dict__ stores, errors moved "
+    "through an alias (analysis error), subclasses of Error defined outside errors.py, what happens to a "
+    "parameter before it is moved (judged at the callers only); of R3.22: memos spread over two functions, "
+    "keys built from values derived from parameters in more than one assignment (analysis error), whether a "
+    "complete key is also cheap.")
+ASSUMPTIONS += [
+    "R3.21: names decide what counts as 'the contents of a log' when an error is taken from an iterable "
+    "(`_errors`, `errors`, `errorlog`, unique_sorted_errors()); a logger call (`_log.*`, `logging.*`) and "
+    "str/repr/len/isinstance do not hand an error on; the filter slot of the log is the attribute "
+    "set_error_filter stores its argument in",
+    "R3.22: a function reads a parameter iff its name is loaded somewhere in the function's body",
+]
+
 DIR = "pytype/directors/directors.py"
 PAR = "pytype/directors/parser.py"
 ERR = "pytype/errors/errors.py"
@@ -1326,6 +1356,46 @@ def _bind_fields(mod, call, cls):
   return {**dict(zip(fields, call.args)), **{k.arg: k.value for k in call.keywords}}
 
 
+def _delegate(mod, fn):
+  """(g, {parameter of fn: parameter of g}) when fn does nothing but hand its parameters on to the module-level
+  function g and return what g produces: directly, wrapped in tuple()/list(), by `yield from`, or through a
+  memo of a long-lived container (whether the memo's key is complete is R3.22's question, not R3.10's)."""
+  from rules import c03_memo_keys as mk
+  calls = [c for c in calls_in(fn) if dotted(c.func) in mod.functions and mod.functions[dotted(c.func)] is not fn]
+  if len(calls) != 1 or any(isinstance(n, (ast.For, ast.While, ast.Yield, ast.Try, ast.With)) for n in walk_no_nested(fn)):
+    return None
+  c, g = calls[0], mod.functions[dotted(calls[0].func)]
+  names = [a.arg for a in g.args.posonlyargs + g.args.args]
+  if any(isinstance(a, ast.Starred) for a in c.args) or any(k.arg is None for k in c.keywords) \
+      or len(c.args) > len(names) or g.args.vararg or g.args.kwarg:
+    return None
+  bound = {**dict(zip(names, c.args)), **{k.arg: k.value for k in c.keywords}}
+  if not all(isinstance(v, ast.Name) for v in bound.values()) or sorted(v.id for v in bound.values()) != sorted(
+      _params(fn)) or set(bound) != set(names) or set(_params(fn)) & _stored(fn):
+    return None
+  ren = {v.id: k for k, v in bound.items()}
+
+  def produced(e):
+    return e is c or (isinstance(e, ast.Call) and dotted(e.func) in ("tuple", "list", "iter") and e.args == [c]
+                      and not e.keywords)
+  memos = mk.memo_sites(mod, fn, None)
+  lookups = {id(n) for m in memos.values() for n, _ in m["reads"]}
+  held = {}   # local -> values assigned to it
+  for n in walk_no_nested(fn):
+    if isinstance(n, ast.Assign):
+      for t in n.targets:
+        if isinstance(t, ast.Name):
+          held.setdefault(t.id, []).append(n.value)
+  ok_local = {k for k, vs in held.items() if any(produced(v) for v in vs)
+              and all(produced(v) or id(v) in lookups for v in vs)}
+  outs = [r.value for r in _returns(fn)] + [n.value for n in walk_no_nested(fn) if isinstance(n, ast.YieldFrom)]
+  if not outs or not all(o is not None and (produced(o) or id(o) in lookups or dotted(o) in ok_local) for o in outs):
+    return None
+  if not any(produced(o) or dotted(o) in ok_local for o in outs):
+    return None
+  return g, ren
+
+
 _STANDALONE_OK = ("not {L}[:{C}].strip()", "not {L}[:{C}].lstrip()", "not {L}[:{C}].rstrip()",
                   "{L}[:{C}].strip() == ''", "not {L}[:{C}] or {L}[:{C}].isspace()",
                   "{L}[:{C}].isspace() or not {L}[:{C}]", "{C} == 0 or {L}[:{C}].isspace()",
@@ -1420,6 +1490,12 @@ def r3_10(ctx):
             {"sink": src(sink), "key": tok_resolve(key), "returns": rets})
   # --- _process_comment
   fn = callee
+  if not any(isinstance(s, ast.For) for s in fn.body):
+    # a wrapper that only hands its arguments on (possibly through a memo, whose key R3.22 judges)
+    d = _delegate(mod, fn)
+    if d is not None:
+      fn, ren = d
+      L, ROW, C = ren[L], ren[ROW], ren[C]
   floops = [s for s in fn.body if isinstance(s, ast.For)]
   if len(floops) != 1 or any(isinstance(n, (ast.For, ast.While)) for s in floops[0].body for n in ast.walk(s)):
     raise AnalysisError("_process_comment: one flat loop over the directive matches expected")
